@@ -221,11 +221,11 @@ fn main() {
         let n2 = run.tier(120_000u64, 3_000_000u64);
         run.generate("any-drawable", n2, false, 0.3, |ctx, idx, rng| {
             if idx % 2 == 0 {
-                let desc = zoo::gen_any::<Rgb565>(rng, &GenCfg::SMALL);
+                let desc = if rng.chance(1, 10) { zoo::gen_dotted_rect(rng) } else { zoo::gen_any::<Rgb565>(rng, &GenCfg::SMALL_DOTTED) };
                 let d = offset(rng, &desc);
                 visit_as::<Rgb565>(ctx, &desc, d);
             } else {
-                let desc = zoo::gen_any::<BinaryColor>(rng, &GenCfg::SMALL);
+                let desc = if rng.chance(1, 10) { zoo::gen_dotted_rect(rng) } else { zoo::gen_any::<BinaryColor>(rng, &GenCfg::SMALL_DOTTED) };
                 let d = offset(rng, &desc);
                 visit_as::<BinaryColor>(ctx, &desc, d);
             }
